@@ -154,12 +154,18 @@ CLAIMED = {
             "independent half-open oracle.",
             "Lean 4 proof (iff characterisations, induction over the series) + exact differential correspondence, exhaustive per minute",
             "DESIGN.md §4 C15"),
-    "C16": ("Determinism and isolation of the IMPLEMENTATION are decided by paired real runs of all eight strategies "
-            "(fresh/fresh, second run on one Scenario object, another strategy first on the same object, all timestamps "
-            "shifted by whole weeks, an added unrelated connector) with exact comparison of every output series and of "
-            "the scenario definition before/after; the model side proves the connector-frame property of the loop's "
-            "bookkeeping. A pure model cannot exhibit hidden Python state, so this claim is partial by nature.",
-            "paired real runs (exact comparison) + Lean frame theorems on the run-loop model",
+    "C16": ("Model side (Lean theorems): the greedy/balanced step is isolated per connector - two worlds that agree on a "
+            "connector's part (its stations, their vehicles, its batteries) give the same loads, station powers, SoCs and "
+            "commands there, hence appending an unrelated connector changes nothing (C16_ruleStep_isolation, "
+            "C16_added_connector; the step model is tied to the real step bit-for-bit inside this check); the event "
+            "buckets, the window predicate (within one season) and the core-standing-time predicate are invariant "
+            "under relabelling by whole weeks (tied by running the model on the relabelled inputs); the loop's "
+            "bookkeeping treats connectors independently. Implementation side: determinism, absence of hidden state and "
+            "the same invariances for ALL eight strategies are decided by paired real runs (fresh/fresh, second run on "
+            "one Scenario object, another strategy first, all timestamps shifted by whole weeks incl. multi-week load "
+            "series, an added unrelated connector) with exact comparison of every output series and of the scenario "
+            "definition. A pure model cannot exhibit hidden Python state, so that part is partial by nature.",
+            "Lean 4 proof (connector isolation of the step model, relabelling invariance, loop frame) + bit-level step tie + paired real runs (exact comparison)",
             "DESIGN.md §4 C16"),
     "C17": ("Run shape for every strategy (at most n steps, one record per step, errors in event processing / strategy / "
             "safety checks end the run with that step and flag it, no error means exactly n steps) is a Lean theorem about "
